@@ -36,13 +36,16 @@ tvars == <<regs, iter, l, hashOf, nbad>>
 Complain(cond, what) == IF cond THEN <<>> ELSE <<what>>
 
 \* Derived probes: the harness grew a clone of every vector the call produced with zeros,
-\* serialised it, asked is_zero and compared it with a fresh vector holding the same bits.  p.w names the probed vector: the returned vector(s)
+\* (directly, and after pushing zeros up to the first bit of the next storage word), serialised it,
+\* asked is_zero and compared it with a fresh vector holding the same bits.  p.w names the probed vector: the returned vector(s)
 \* ("ob", "oq") or the subject afterwards ("pb").  Storage dirt beyond len shows up here.
 ProbeTarget(e, w) == CASE w = "ob" -> e.o.b [] w = "oq" -> e.o.q [] w = "pb" -> e.pb
 ProbeOk(p, res) ==
   /\ p.ok = 1
   /\ Len(p.g) >= Len(res)
   /\ p.g = res \o Zeros(Len(p.g) - Len(res))
+  /\ Len(p.gw) >= Len(res)
+  /\ p.gw = res \o Zeros(Len(p.gw) - Len(res))     \* pushed into the next storage word, then grown
   /\ p.by = ToBytesLE(res)
   /\ p.z = (IF IsZero(res) THEN 1 ELSE 0)
   /\ p.e = 1                 \* == / cmp / >= against a fresh vector holding the same bits
